@@ -81,7 +81,7 @@ for pid in sorted(P):
             "evidence_file": "/verif/evidence/%s.json" % pid,
             "replay_cmd_template": "cat {path}; ./check %s quick" % pid,
             "engine": "vipcheck",
-            "level_claimed": {"category": "other", "text": text + " Plus the repository-wide discipline rules evaluated over this property's packages (err-polarity, loop-visits-all, cancel-after-use, trim-cutset, go-captures-live, shared-result, no-relock, pooled-escape, lock-copy, pure-stringer, param-backing-write, loop-decode-reuse, and the closed RPC surface where the property quantifies over endpoints; DESIGN.md 8 and 8.1). Decides these structural clauses for all paths/call sites; it does not decide the behavioural property as a whole.", "design_ref": "DESIGN.md " + ref},
+            "level_claimed": {"category": "other", "text": text + " Plus the repository-wide discipline rules evaluated over this property's packages (err-polarity, loop-visits-all, cancel-after-use, trim-cutset, go-captures-live, shared-result, no-relock, pooled-escape, lock-copy, pure-stringer, param-backing-write, loop-decode-reuse, closure-loop-var, field-backing-append, response-outlives-context, and the closed RPC surface where the property quantifies over endpoints; DESIGN.md 8 and 8.1). Decides these structural clauses for all paths/call sites; it does not decide the behavioural property as a whole.", "design_ref": "DESIGN.md " + ref},
             "level_note": note + " Trusted base: go/types, go/ssa, VTA call graph, vipcheck's analyses, documented library semantics.",
             "technique": "static analysis: " + tech,
         })
